@@ -1,0 +1,199 @@
+//go:build verif
+
+package keystore
+
+// Transaction-discipline contracts for govc (see /verif/DESIGN.md, C12). Comment-only; build tag verif.
+//
+// In-memory wallet state changes only outside a write transaction (i.e. after Commit succeeded or before it
+// began), so a failed or never-reached Commit leaves memory as it was.
+
+//@ type KeystoreManagerForPoC protects group tx managedKeystores, unlocked, pubPassphrase reads true writes !in_tx
+//@ type AddrManager protects group tx remark, addrs, acctInfo, branchInfo, unlocked, masterKeyPub, masterKeyPriv, cryptoKeyPrivEncrypted, cryptoKeyPriv, privPassphraseSalt, hashedPrivPassphrase reads true writes !in_tx
+//@ type accountInfo protects group tx acctKeyEncrypted, acctKeyPriv, acctKeyPub reads true writes !in_tx
+//@ type branchInfo protects group tx internalBranchPub, internalBranchPriv, externalBranchPub, externalBranchPriv, nextExternalIndex, nextInternalIndex reads true writes !in_tx
+//@ type ManagedAddress protects group tx privKey reads true writes !in_tx
+
+// ---- transaction context of each function (obligations at every call site)
+//@ func putMasterKeyParams
+//@   requires tx-entry: in_tx
+//@   modifies write_failed
+//@   ensures tx-propagate: write_failed ==> (old(write_failed) || err != nil)
+//@ func putMasterHDKeys
+//@   requires tx-entry: in_tx
+//@   modifies write_failed
+//@   ensures tx-propagate: write_failed ==> (old(write_failed) || err != nil)
+//@ func putCryptoKeys
+//@   requires tx-entry: in_tx
+//@   modifies write_failed
+//@   ensures tx-propagate: write_failed ==> (old(write_failed) || err != nil)
+//@ func putAccountUsage
+//@   requires tx-entry: in_tx
+//@   modifies write_failed
+//@   ensures tx-propagate: write_failed ==> (old(write_failed) || err != nil)
+//@ func putAccountRow
+//@   requires tx-entry: in_tx
+//@   modifies write_failed
+//@   ensures tx-propagate: write_failed ==> (old(write_failed) || err != nil)
+//@ func putCoinType
+//@   requires tx-entry: in_tx
+//@   modifies write_failed
+//@   ensures tx-propagate: write_failed ==> (old(write_failed) || err != nil)
+//@ func putAccountInfo
+//@   requires tx-entry: in_tx
+//@   modifies write_failed
+//@   ensures tx-propagate: write_failed ==> (old(write_failed) || err != nil)
+//@ func putAccountID
+//@   requires tx-entry: in_tx
+//@   modifies write_failed
+//@   ensures tx-propagate: write_failed ==> (old(write_failed) || err != nil)
+//@ func deleteAccountID
+//@   requires tx-entry: in_tx
+//@   modifies write_failed
+//@   ensures tx-propagate: write_failed ==> (old(write_failed) || err != nil)
+//@ func putRemark
+//@   requires tx-entry: in_tx
+//@   modifies write_failed
+//@   ensures tx-propagate: write_failed ==> (old(write_failed) || err != nil)
+//@ func deleteRemark
+//@   requires tx-entry: in_tx
+//@   modifies write_failed
+//@   ensures tx-propagate: write_failed ==> (old(write_failed) || err != nil)
+//@ func putBranchPubKeys
+//@   requires tx-entry: in_tx
+//@   modifies write_failed
+//@   ensures tx-propagate: write_failed ==> (old(write_failed) || err != nil)
+//@ func initBranchChildNum
+//@   requires tx-entry: in_tx
+//@   modifies write_failed
+//@   ensures tx-propagate: write_failed ==> (old(write_failed) || err != nil)
+//@ func updateChildNum
+//@   requires tx-entry: in_tx
+//@   modifies write_failed
+//@   ensures tx-propagate: write_failed ==> (old(write_failed) || err != nil)
+//@ func putLastIndex
+//@   requires tx-entry: in_tx
+//@   modifies write_failed
+//@   ensures tx-propagate: write_failed ==> (old(write_failed) || err != nil)
+//@ func putEncryptedPubKey
+//@   requires tx-entry: in_tx
+//@   modifies write_failed
+//@   ensures tx-propagate: write_failed ==> (old(write_failed) || err != nil)
+//@ func createManagerKeyScope
+//@   requires tx-entry: in_tx
+//@   loop * invariant tx-clean: (write_failed ==> old(write_failed)) && in_tx && tx_count == old(tx_count)
+//@   modifies heap, write_failed
+//@   ensures tx-propagate: write_failed ==> (old(write_failed) || err != nil)
+//@   ensures tx-ghost-frame: in_tx && tx_count == old(tx_count)
+//@ func create
+//@   requires tx-entry: in_tx
+//@   loop * invariant tx-clean: (write_failed ==> old(write_failed)) && in_tx && tx_count == old(tx_count)
+//@   modifies heap, write_failed
+//@   ensures tx-propagate: write_failed ==> (old(write_failed) || err != nil)
+//@   ensures tx-ghost-frame: in_tx && tx_count == old(tx_count)
+//@ func (*KeystoreManagerForPoC).allocAddrMgrNamespace
+//@   requires tx-entry: in_tx
+//@   loop * invariant tx-clean: (write_failed ==> old(write_failed)) && in_tx && tx_count == old(tx_count)
+//@   modifies heap, write_failed
+//@   ensures tx-propagate: write_failed ==> (old(write_failed) || err != nil)
+//@   ensures tx-ghost-frame: in_tx && tx_count == old(tx_count)
+//@ func (*AddrManager).nextAddresses
+//@   requires tx-entry: in_tx
+//@   loop * invariant tx-clean: (write_failed ==> old(write_failed)) && in_tx && tx_count == old(tx_count)
+//@   modifies heap, write_failed
+//@   ensures tx-propagate: write_failed ==> (old(write_failed) || err != nil)
+//@   ensures tx-ghost-frame: in_tx && tx_count == old(tx_count)
+//@ func (*AddrManager).changePrivPassphrase
+//@   requires tx-entry: in_tx
+//@   modifies heap, write_failed
+//@   ensures tx-propagate: write_failed ==> (old(write_failed) || err != nil)
+//@   ensures tx-ghost-frame: in_tx && tx_count == old(tx_count)
+//@ func (*AddrManager).changeRemark
+//@   requires tx-entry: in_tx
+//@   modifies heap, write_failed
+//@   ensures tx-propagate: write_failed ==> (old(write_failed) || err != nil)
+//@   ensures tx-ghost-frame: in_tx && tx_count == old(tx_count)
+//@ func (*AddrManager).destroy
+//@   requires tx-entry: in_tx
+//@   modifies heap, write_failed
+//@   ensures tx-propagate: write_failed ==> (old(write_failed) || err != nil)
+//@   ensures tx-ghost-frame: in_tx && tx_count == old(tx_count)
+//@ func (*AddrManager).clearPrivKeys
+//@   requires tx-entry: !in_tx
+//@ func (*AddrManager).updatePrivKeys
+//@   requires tx-entry: !in_tx
+//@ func (*AddrManager).updateManagedAddress
+//@   requires tx-entry: !in_tx
+//@ func (*KeystoreManagerForPoC).useKeystore
+//@   requires tx-entry: !in_tx
+//@ func (*KeystoreManagerForPoC).NewKeystore
+//@   requires tx-entry: !in_tx && !write_failed
+//@   ensures tx-single: tx_count <= old(tx_count) + 1 && !in_tx
+//@ func (*KeystoreManagerForPoC).ImportKeystore
+//@   requires tx-entry: !in_tx && !write_failed
+//@   ensures tx-single: tx_count <= old(tx_count) + 1 && !in_tx
+//@ func (*KeystoreManagerForPoC).ExportKeystore
+//@   requires tx-entry: !in_tx && !write_failed
+//@   ensures tx-single: tx_count <= old(tx_count) + 1 && !in_tx
+//@ func (*KeystoreManagerForPoC).DeleteKeystore
+//@   requires tx-entry: !in_tx && !write_failed
+//@   ensures tx-single: tx_count <= old(tx_count) + 1 && !in_tx
+//@ func (*KeystoreManagerForPoC).Unlock
+//@   requires tx-entry: !in_tx && !write_failed
+//@   ensures tx-single: tx_count <= old(tx_count) + 1 && !in_tx
+//@ func (*KeystoreManagerForPoC).Lock
+//@   requires tx-entry: !in_tx && !write_failed
+//@   ensures tx-single: tx_count <= old(tx_count) + 1 && !in_tx
+//@ func (*KeystoreManagerForPoC).NextAddresses
+//@   requires tx-entry: !in_tx && !write_failed
+//@   ensures tx-single: tx_count <= old(tx_count) + 1 && !in_tx
+//@ func (*KeystoreManagerForPoC).GenerateNewPublicKey
+//@   requires tx-entry: !in_tx && !write_failed
+//@   ensures tx-single: tx_count <= old(tx_count) + 1 && !in_tx
+//@ func (*KeystoreManagerForPoC).ChangeRemark
+//@   requires tx-entry: !in_tx && !write_failed
+//@   ensures tx-single: tx_count <= old(tx_count) + 1 && !in_tx
+//@ func (*KeystoreManagerForPoC).ChangePubPassphrase
+//@   requires tx-entry: !in_tx && !write_failed
+//@   ensures tx-single: tx_count <= old(tx_count) + 1 && !in_tx
+//@ func (*KeystoreManagerForPoC).ChangePrivPassphrase
+//@   requires tx-entry: !in_tx && !write_failed
+//@   ensures tx-single: tx_count <= old(tx_count) + 1 && !in_tx
+//@ func NewKeystoreManagerForPoC
+//@   requires tx-entry: !in_tx && !write_failed
+//@   ensures tx-single: tx_count <= old(tx_count) + 1 && !in_tx
+
+// ---- the key-encryption interface: its only implementation (cryptoKey over snacl.CryptoKey) touches nothing but
+// the key bytes; contracts of the interface methods, assumed for callers
+//@ func (EncryptorDecryptor).Encrypt
+//@   attr trusted
+//@   modifies nothing
+//@ func (EncryptorDecryptor).Decrypt
+//@   attr trusted
+//@   modifies nothing
+//@ func (EncryptorDecryptor).Bytes
+//@   attr trusted
+//@   modifies nothing
+//@ func (EncryptorDecryptor).CopyBytes
+//@   attr trusted
+//@   modifies elems(byte)
+//@ func (EncryptorDecryptor).Zero
+//@   attr trusted
+//@   modifies elems(byte)
+
+// small pure serialisers used by the writers
+//@ func uint32ToBytes
+//@   modifies nothing
+//@   ensures len(result) == 4 && fresh(result)
+//@ func serializeAccountRow
+//@   requires row != nil
+//@   modifies nothing
+//@ func serializeHDAccountKey
+//@   modifies nothing
+
+// transaction closures that loop over the keystores: no write error is carried into the next iteration
+//@ func (*KeystoreManagerForPoC).ChangePubPassphrase$1
+//@   loop * invariant tx-clean: (write_failed ==> old(write_failed)) && in_tx && tx_count == old(tx_count)
+//@ func (*KeystoreManagerForPoC).ChangePrivPassphrase$1
+//@   loop * invariant tx-clean: (write_failed ==> old(write_failed)) && in_tx && tx_count == old(tx_count)
+//@ func (*AddrManager).setRemark
+//@   requires tx-entry: !in_tx
